@@ -3885,10 +3885,11 @@ class CaseNode(Node):
 class OptionalNode(ActionSinkNode):
     def __init__(self, sub_contents: Node):
         self.start_actions = []
+        self.unschedulable_head_actions = []
         if isinstance(sub_contents, ActionSourceNode):
-            # actions at the head of the body (directly, or handed up by a try / loop / foreach that starts it) run when the body is entered
-            head_actions, sub_contents = sub_contents.adopt_actions_from()
-            self.start_actions.extend(head_actions)
+            # actions at the head of the body (directly, or handed up by a try / loop / foreach that starts it): there is no
+            # transition that is taken exactly when the body is entered, so they cannot be scheduled (see convert)
+            self.unschedulable_head_actions, sub_contents = sub_contents.adopt_actions_from()
         self.sub_contents = sub_contents
         self.finish_actions = []
         self.next = None
@@ -3912,6 +3913,8 @@ class OptionalNode(ActionSinkNode):
     def convert(self, current_error_handlers):
         if self.sub_contents is None:
             raise IllegalASTStateError("Empty optional body: an optional of actions only has nothing to be optional on", self)
+        if self.unschedulable_head_actions:
+            raise IllegalASTStateError("Actions at the head of an optional cannot be scheduled; put them after its first match", self)
         sub_dfa = self.sub_contents.convert(current_error_handlers)
         if sub_dfa.starting_state in sub_dfa.accepting_states:
             raise IllegalDFAStateError("Ambigious path in optional: should use optional or go to next", sub_dfa.starting_state)
